@@ -43,7 +43,7 @@ func (w *World) clientID(h interface{ SetClientID(string) }) {
 // others: values, network headers, node info, handover messages, memberlist types, params.
 func (w *World) others() []Obj {
 	var os []Obj
-	add := func(kind string, signed bool, v any) { os = append(os, Obj{Kind: kind, V: v, Signed: signed}) }
+	add := func(kind string, signed bool, v any) { os = append(os, Obj{Kind: kind, V: v, Signed: signed, NID: signed}) }
 	pub := func() base.Publickey { return w.Priv().Publickey() }
 
 	// plain values
@@ -61,7 +61,7 @@ func (w *World) others() []Obj {
 	add("BlockItemFile/remote", false, isaac.NewBlockItemFile(url.URL{Scheme: "https", Host: w.Str("h") + ".example.com", Path: "/" + w.Str("p")}, "gz"))
 	items := map[base.BlockItemType]base.BlockItemFile{}
 	for _, t := range []base.BlockItemType{base.BlockItemMap, base.BlockItemProposal, base.BlockItemOperations, base.BlockItemVoteproofs, base.BlockItemStates} {
-		if w.R.Chance(3, 4) {
+		if t == base.BlockItemMap || t == base.BlockItemProposal || t == base.BlockItemVoteproofs || w.R.Chance(3, 4) {
 			items[t] = isaac.NewLocalFSBlockItemFile(w.Str("f")+".json", "")
 		}
 	}
@@ -69,7 +69,7 @@ func (w *World) others() []Obj {
 	params := isaac.DefaultParams(w.NetworkID)
 	must(params.SetThreshold(w.threshold()))
 	must(params.SetMaxTryHandoverYBrokerSyncData(uint64(w.R.Range(1, 99))))
-	add("Params", false, params)
+	os = append(os, Obj{Kind: "Params", V: params, NID: true})
 
 	// fixedtree nodes (encoded without their own _hint key at top level; decoded with a given hint)
 	add("StateFixedtreeNode", false, fixedtree.NewBaseNode(w.Hash().String()).SetHash(w.Hash()))
@@ -134,7 +134,7 @@ func (w *World) others() []Obj {
 		up.SetConnInfo(w.ConnInfo().String())
 		up.SetConsensusNodes(w.Nodes())
 		up.SetLastVote(base.NewStagePoint(w.Point(), base.StageACCEPT), base.VoteResultMajority)
-		add("NodeInfo", false, up.NodeInfo())
+		os = append(os, Obj{Kind: "NodeInfo", V: up.NodeInfo(), NID: true})
 	}
 
 	// launch
